@@ -498,12 +498,12 @@ func takeUpTo(f funding, n *big.Int) (taken, rest funding) {
 }
 
 type evalState struct {
-	w    *World
-	vals map[string]Value
-	bal  map[string]map[string]*big.Int // running balances
-	out  Outcome
-	tx   map[string]Value
-	acc  map[string]map[string]Value
+	w     *World
+	vals  map[string]Value
+	bal   map[string]map[string]*big.Int // running balances
+	out   Outcome
+	tx    map[string]Value
+	acc   map[string]map[string]Value
 	quirk string
 	// Grants: per account/asset the largest overdraft the script grants (nil = unbounded); used by the C01 oracle.
 }
